@@ -193,3 +193,17 @@ claim("C05",
       "character codes of pycaption); rows loaded top-down with one PAC each; captions whose "
       "first row is the previous caption's last row (+1) are an open known finding",
       "DESIGN.md 3/C05")
+claim("C06",
+      "abstract pop-on programs laid out in time (Hypothesis) read with generated offsets; "
+      "differential against an exact Fraction transmission clock of the independent decoder; "
+      "expected-exception oracle for sub-0.05 s displays; metamorphic ';' vs ':' timecode ratio",
+      "Generated-program search: 5k (thorough 300k) programs with EOC at generated word "
+      "positions, single/doubled codes, EDM inline / 1-12 frames before the EOC / absent, flash "
+      "displays of 1-3 frames, cleared and never-cleared final captions, offsets incl. values "
+      "beyond the first start; start/end within 0.01 us of the exact clock, five-frame gap "
+      "closing, 4 s default, order, start <= end, CaptionReadTimingError exactly when a display "
+      "lasts under 0.05 s; 1.5k (100k) programs read with both timecode kinds (ratio "
+      "1001:1000).",
+      "trusts vf/ref/cea608.py clock; boundary of the gap rule follows the pinned test; ends "
+      "floored to zero by the offset are not compared",
+      "DESIGN.md 3/C06")
